@@ -217,7 +217,7 @@ func H_textlex(n, ctx int) {
 func H_literal(n int) {
 	b := make([]byte, n)
 	for i := range b {
-		b[i] = []byte("a {}\n/<*")[verifChoose(8)]
+		b[i] = []byte("a {}\n/<*\r\t")[verifChoose(10)]
 	}
 	s := string(b)
 	for i := 0; i+1 < len(s); i++ {
